@@ -16,7 +16,7 @@ vars == <<j, dst, est, tk, fin>>
 
 Init == /\ j \in 1..NJobs /\ dst = DecInit /\ est = EncInit /\ tk = 1 /\ fin = FALSE
 
-Bits(job) == UnpackBytes(job.payload)
+Bits(job) == FromBytes(job.payload)
 
 DecStep ==
     /\ ~fin /\ Jobs[j].kind = "dec"
